@@ -6,6 +6,7 @@ from ..core import holds, violation, unrecognised, Result, HOLDS
 from .. import scratch
 
 ID = "C13"
+ANCHORS = 'tools.tomtom._tomtom,tools.tomtom._binned_median,tools.tomtom._pairwise_max'.split(",")
 MIN_INSTANCES = 20
 EXPLANATION = (
     "R-TID: every array allocated before the prange loop of tomtom._tomtom and used inside it other than through the prange "
